@@ -334,6 +334,38 @@ func RunC13(c *lib.Ctx) {
 			c.Count("command_roundtrips", 1)
 			c.Case(fmt.Sprintf("cmd/n%d", nd), nd > 0)
 		}
+		// several commands in flight: encoding the next one must not disturb the previous ones
+		for k := 0; k < c.Q(60, 600); k++ {
+			nc := r.Range(2, 6)
+			var encs [][]byte
+			var copies [][]byte
+			var lists [][]hashing.Digest
+			for x := 0; x < nc; x++ {
+				ds := make([]hashing.Digest, r.Pick(1, 1, 2, 5))
+				for i := range ds {
+					ds[i] = r.Bytes(32)
+				}
+				buf, err := consensus.VerifEncodeAdd(ds)
+				if err != nil {
+					continue
+				}
+				encs, copies, lists = append(encs, buf), append(copies, append([]byte{}, buf...)), append(lists, ds)
+			}
+			for x := range encs {
+				cs := c13case{ID: fmt.Sprintf("inflight%d", k), Kind: "add-commands-in-flight", Detail: fmt.Sprintf("%d commands encoded before any is decoded", nc)}
+				back, err := consensus.VerifDecodeAdd(encs[x])
+				same := err == nil && len(back) == len(lists[x]) && bytes.Equal(encs[x], copies[x])
+				for i := 0; same && i < len(back); i++ {
+					same = bytes.Equal(back[i], lists[x][i])
+				}
+				if !same {
+					fail(cs, "C13:command:changed-while-in-flight", fmt.Sprintf("command #%d of %d no longer decodes to its digests after later commands were encoded (%v)", x, nc, err))
+					break
+				}
+			}
+			c.Count("in_flight_command_groups", 1)
+			c.Case(fmt.Sprintf("cmd-inflight/%d", nc), true)
+		}
 		for k := 0; k < c.Q(300, 5000); k++ {
 			m := &gossip.Message{Kind: gossip.BatchMessageType, TTL: r.Pick(-1000000, -1, 0, 1, 2, 5, 1<<31-1, -(1 << 31)), Payload: nil}
 			switch r.Intn(4) {
